@@ -32,6 +32,8 @@ impl Vt {
         if let Some(op) = self.parser.feed(input) {
             self.terminal.execute(op);
         }
+
+        self.terminal.gc_alternate();
     }
 
     pub fn size(&self) -> (usize, usize) {
